@@ -201,8 +201,47 @@ def index_methods(ctx):
         ctx.oracle_fail("collapsed changed its precedence list", {"index": I.to_json(ix)}, cls="C17-input-mutated")
 
 
+def construction(ctx):
+    """iindex.from_array leaves its array, counts and mapping arguments unchanged (all option combinations)"""
+    from catii import iindex
+    nd = ctx.rng.choice([1, 2])
+    N = ctx.rng.choice([3, 9, 40, 120])
+    vals = ctx.rng.choice([[0, 1, 2], [0, 1, 2, 3, 4, 5, 6], [5, 11, 14, 16, 20, 30]])
+    w = [10.0] + [1.0] * (len(vals) - 1)
+    shape = (N,) if nd == 1 else (N, ctx.rng.randrange(1, 3))
+    a = np.array(ctx.rng.choices(vals, weights=w, k=int(np.prod(shape))), dtype=np.int64).reshape(shape)
+    vv, cn = np.unique(a, return_counts=True)
+    counts = {int(x): int(y) for x, y in zip(vv.tolist(), cn.tolist())} if ctx.rng.random() < 0.7 else None
+    mapping = {int(v): ctx.rng.choice([0, 1, 2, 7]) for v in vals} if ctx.rng.random() < 0.4 else None
+    common = ctx.rng.choice([None, vals[0], vals[-1], 99])
+    if mapping is not None and common == 99:
+        common = None
+    kw = {}
+    if counts is not None:
+        kw["counts"] = counts
+    if mapping is not None:
+        kw["mapping"] = mapping
+    if common is not None:
+        kw["common"] = common
+    before = (a.tobytes(), None if counts is None else list(counts.items()), None if mapping is None else list(mapping.items()))
+    ctx.evaluations += 1
+    ctx.hit("from_array" + ("/counts" if counts is not None else "") + ("/mapping" if mapping is not None else ""))
+    try:
+        iindex.from_array(a, **kw)
+    except Exception:
+        ctx.hit("from_array_raised")
+    after = (a.tobytes(), None if counts is None else list(counts.items()), None if mapping is None else list(mapping.items()))
+    if after != before:
+        what = "array" if after[0] != before[0] else "counts" if after[1] != before[1] else "mapping"
+        ctx.oracle_fail("iindex.from_array changed its %s argument" % what,
+                        {"shape": list(shape), "distinct": vals, "counts": counts is not None, "mapping": mapping is not None,
+                         "common": common}, cls="C17-input-mutated")
+
+
 def run(ctx):
     core.load_catii()
+    for _ in range(ctx.n(60, 2000)):
+        construction(ctx)
     for _ in range(ctx.n(14, 600)):
         case = A.gen_case(ctx.rng, multi_axis=ctx.rng.random() < 0.3, k=ctx.rng.choice([1, 2, 2]),
                           N=ctx.rng.choice([2, 3, 5, 9]))
